@@ -151,7 +151,21 @@ def run(tier):
             continue
         add("walk:%d" % j, d1, "walk", text, quote=q, dmp=impl.dumper(quote=q))
         ck.nontrivial(h[:-1])
-    verdicts = tracecheck.validate("TraceRoundTrip", records, "c01", ck=ck, chunk=800)
+    def canary(r):
+        def bump(v):
+            if v["t"] == "dict":
+                return any(bump(it["v"]) for it in v["items"])
+            if v["t"] == "list":
+                return any(bump(e) for e in v["elems"])
+            if v["t"] in ("int", "float") and "id" in v:
+                v["t"] = "str"          # a number turned into some unrelated string
+                v["id"] = 1
+                return True
+            return False
+        if not r.get("accepted2") or r.get("anyq"):
+            return None
+        return r if bump(r["d2"]) else None
+    verdicts = tracecheck.validate("TraceRoundTrip", records, "c01", ck=ck, chunk=800, canary=canary)
     skipped = 0
     for tid, v in verdicts.items():
         vd = v["verdict"]
